@@ -118,6 +118,16 @@ static uint64_t g_from = 0;
 static int64_t g_only = -1;
 static const char *g_mode = "";
 static int g_verbose = 0;
+/* harness allocations: running out of memory for the harness's own buffers is not a verdict on the library */
+static inline void *h_alloc_check(void *p, size_t n) {
+    if (!p && n) {
+        fprintf(stderr, "harness: out of memory (%zu bytes)\n", n);
+        printf("STAT harness_out_of_memory 1\n");
+        fflush(stdout);
+        _exit(3);
+    }
+    return p;
+}
 static uint64_t g_param[8]; /* --p0 .. --p7 free parameters */
 static const char *g_sparam = "";
 
@@ -198,7 +208,18 @@ static uint64_t *stat_slot(const char *name, int ismax) {
         fprintf(stderr, "too many stats\n");
         exit(2);
     }
-    g_stats[g_nstats].name = strdup(name);
+    { /* names live in a static pool: the harness must not allocate while an allocation monitor is armed */
+        static char pool[MAX_STATS * 64];
+        static size_t used = 0;
+        size_t l = strlen(name) + 1;
+        if (used + l > sizeof pool) {
+            fprintf(stderr, "stat name pool full\n");
+            exit(2);
+        }
+        memcpy(pool + used, name, l);
+        g_stats[g_nstats].name = pool + used;
+        used += l;
+    }
     g_stats[g_nstats].ismax = ismax;
     g_stats[g_nstats].v = 0;
     return &g_stats[g_nstats++].v;
@@ -359,12 +380,12 @@ static void gbuf_alloc(gbuf_t *g, size_t n, size_t post, uint8_t pat) {
     size_t off = g_gbuf_off;
 #if VERIF_ASAN
     g->post = 0;
-    g->base = malloc(off + n); /* malloc(0) gives a 0-byte block with red zones */
+    g->base = h_alloc_check(malloc(off + n), 1); /* malloc(0) gives a 0-byte block with red zones */
     g->p = g->base + off;
     (void)post;
 #else
     g->post = post;
-    g->base = malloc(GBUF_PRE + off + n + post);
+    g->base = h_alloc_check(malloc(GBUF_PRE + off + n + post), 1);
     g->p = g->base + GBUF_PRE + off;
     for (size_t i = 0; i < off; i++) {
         g->base[GBUF_PRE + i] = 0x3D;
